@@ -8,8 +8,10 @@
    the states [P]:
      pieces concatenate to the input; an empty piece means end of input; a
      piece never runs past a CRLF; a piece that does not end with LF is a
-     size cut or the end of input; when a cut separates CR from LF the LF
-     comes back as a piece of its own.
+     size cut or the end of input.
+   (Since /repo commit 0c4c429 the parser no longer needs "when a cut
+   separates CR from LF the LF comes back as a piece of its own"; before it,
+   the CRLF-splitting reader violated that clause and parts were lost.)
    [bline b last pad] is a delimiter line without its line end
    ("--b" ["--"] padding), [no_delim_line b c] says that no line of the
    content c reads as a delimiter line (near copies like "--bX", "--b-",
@@ -36,7 +38,7 @@ Theorem C08_lines_to_boundary_exact :
     boundary_ok b = true ->
     forallb is_blank_c pad = true ->
     (eol = [13; 10] \/ (eol = [] /\ rest = [])) ->
-    len (bline b last pad) + 2 <= maxline ->
+    len (bline b last pad) + 3 <= maxline ->
     len b + 6 <= maxline ->
     no_delim_line b c ->
     limit_ok limit (len c) ->
@@ -66,20 +68,28 @@ Theorem C08_lf_reader_good :
 Proof. exact lf_reader_good. Qed.
 Print Assumptions C08_lf_reader_good.
 
-(* CachedInput.readline (seen from outside) satisfies it for the sizes the
-   parser uses, on every input on which it never separates a CR from the LF
-   behind it ... *)
+(* ... and so does CachedInput.readline (seen from outside: a line ends
+   after a CRLF that fits into the size, a bare LF does not end it), for
+   every size argument and every input -- including the inputs on which it
+   separates a CR from the LF behind it *)
 Theorem C08_crlf_reader_good :
-  forall maxline,
-    good_reader bytes crlf_line idb (crlf_lims maxline) (crlf_safe maxline).
+  good_reader bytes crlf_line idb any_lim any_state.
 Proof. exact crlf_reader_good. Qed.
 Print Assumptions C08_crlf_reader_good.
 
-(* ... in particular on every input not longer than the line limit *)
-Theorem C08_crlf_safe_short :
-  forall maxline s, len s <= maxline -> crlf_safe maxline s.
-Proof. exact crlf_safe_short. Qed.
-Print Assumptions C08_crlf_safe_short.
+(* the case that was a defect until 0c4c429, as a computed instance: the
+   size cut falls between the CR and the LF in front of the delimiter *)
+Theorem C08_crlf_cut_divides_delimiter_ok :
+  let b := [98] in let c := [97; 97; 97; 97; 97; 97; 97] in
+  let rest := [110; 101; 120; 116] in       (* "b", "aaaaaaa", "next" *)
+  let input := c ++ [13; 10] ++ bline b false [] ++ [13; 10] ++ rest in
+  fst (crlf_line 8 input) = c ++ [13] /\
+  exists pieces n,
+    rlob bytes crlf_line 8 (fuel_for input) (dashb b) (dashb b ++ [45; 45])
+         None [] [] true 0 input = RDone pieces 0 n rest /\
+    List.concat pieces = c.
+Proof. exact crlf_cut_divides_delimiter_ok. Qed.
+Print Assumptions C08_crlf_cut_divides_delimiter_ok.
 
 (* (2) Round trip of flat part lists: parsing encode b parts gives fields
    with the same names, filenames, media types and byte-exact contents, in
@@ -101,7 +111,7 @@ Theorem C08_multipart_roundtrip_partial :
   forall (maxline : Z) (b : bytes) (p : part) (ps : list part) (final : bool)
          (ctv : list Z) (clen : Z) (s : St) (fuel : nat),
     L maxline -> L (-1) ->
-    boundary_ok b = true -> len b + 6 <= maxline ->
+    boundary_ok b = true -> len b + 7 <= maxline ->
     ctype_names ctv b ->
     Forall (part_ok b) (p :: ps) ->
     P s -> rem s = encode b (p :: ps) final ->
@@ -120,7 +130,7 @@ Theorem C08_reader_independent_partial :
     good_reader St1 rl1 rem1 L1 P1 -> good_reader St2 rl2 rem2 L2 P2 ->
   forall maxline b p ps final ctv clen s1 s2 fuel,
     L1 maxline -> L1 (-1) -> L2 maxline -> L2 (-1) ->
-    boundary_ok b = true -> len b + 6 <= maxline ->
+    boundary_ok b = true -> len b + 7 <= maxline ->
     ctype_names ctv b -> Forall (part_ok b) (p :: ps) ->
     P1 s1 -> P2 s2 ->
     rem1 s1 = encode b (p :: ps) final -> rem2 s2 = encode b (p :: ps) final ->
@@ -150,24 +160,6 @@ Proof. exact ex_hypotheses. Qed.
 Print Assumptions C08_hypotheses_example.
 
 (* ---- where the faithful model does not round-trip *)
-
-(* candidate defect: the CRLF-splitting reader with a line limit separates
-   the CR of the CRLF in front of a delimiter from its LF (content whose
-   last CRLF-free run is limit-1 bytes, 65535 in the implementation): the
-   delimiter is missed and everything behind it becomes content *)
-Theorem C08_crlf_cut_divides_delimiter_refuted :
-  exists maxline b c rest input,
-    input = c ++ [13; 10] ++ bline b false [] ++ [13; 10] ++ rest /\
-    boundary_ok b = true /\ len (bline b false []) + 2 <= maxline /\
-    len b + 6 <= maxline /\ no_delim_line b c /\
-    ~ crlf_safe maxline input /\
-    exists pieces n,
-      rlob bytes crlf_line maxline (fuel_for input) (dashb b)
-           (dashb b ++ [45; 45]) None [] [] true 0 input
-        = RDone pieces (-1) n [] /\
-      List.concat pieces <> c.
-Proof. exact crlf_cut_divides_delimiter_refuted. Qed.
-Print Assumptions C08_crlf_cut_divides_delimiter_refuted.
 
 (* "CRLF--b does not occur in the content" (RFC 2046) is not enough: a
    delimiter-like line behind a bare LF ends the part *)
